@@ -142,6 +142,11 @@ func newWorld() *world {
 	if err := ctx.InstallBridgeListProfile(strings.NewReader(bl), "", ""); err != nil {
 		panic(err)
 	}
+	// then the operator tries to install a list that is refused (its second record is malformed); its first
+	// record names the fingerprint the harnesses use as "absent from the list".  A refused file changes
+	// nothing: the list above stays in force as a whole, and no record of the refused file is used.
+	refused := fmt.Sprintf("{\"displayName\":\"refused\", \"webSocketAddress\":\"wss://refused.example/\", \"fingerprint\":%q}\n{\"displayName\":\"broken\", \"webSocketAddress\":\"wss://x.example/\", \"fingerprint\":\"zz\"}\n", fpAbsent)
+	_ = ctx.InstallBridgeListProfile(strings.NewReader(refused), "", "")
 	w := &world{ctx: ctx, ipc: &IPC{ctx}, bridgeList: bl}
 	if !keepMetricsOrder {
 		// Critical sections of metrics.lock only increment counters and insert into address sets;
@@ -150,7 +155,11 @@ func newWorld() *world {
 		// scheduling point; the runtime checks that the sections contain no scheduling point, which
 		// is why these harnesses also run the rounded counters' atomics without points).  C19 and
 		// C20 harnesses set keepMetricsOrder.
-		ctx.metrics.lock.Commutative()
+		// (through an interface: a tree that makes the lock an RWMutex still builds; without the
+		// abstraction the exploration is only slower)
+		if c, ok := interface{}(&ctx.metrics.lock).(interface{ Commutative() }); ok {
+			c.Commutative()
+		}
 	}
 	vs.GoRole("Broker", vs.RoleDaemon, ctx.Broker)
 	return w
